@@ -159,6 +159,14 @@ pub enum Alt {
     // C03: a document signer certificate NOT signed by the IACA but naming it (issuer name, authority key identifier,
     // and with `true` also the genuine certificate's serial number and subject), with the MSO signed by the forger's key
     X5Forged(bool),
+    /// x5chain [genuine document signer certificate, forger's certificate], MSO signed by the forger's key
+    X5GenuineThenForger,
+    /// protected header of the issuerAuth replaced AFTER signing by another encoding of the same map
+    ProtectedReencoded(u8),
+    /// the response carries two documents of the mDL docType: an altered copy and the authentic one (altered first: true)
+    DocumentTwice(bool),
+    /// device signature bytes that are not a 64-byte r||s in range: 63, 65, 32, 0 bytes, 64 zero bytes
+    DevSigShape(u8),
 }
 
 pub fn apply(alt: &Alt, sc: &Scene, pt: &mut Value, rng: &mut StdRng) {
@@ -300,6 +308,34 @@ pub fn apply(alt: &Alt, sc: &Scene, pt: &mut Value, rng: &mut StdRng) {
             let tbs = to_bytes(&arr(vec![text("Signature1"), bytes(&prot), bytes(&[]), bytes(&payload)]));
             let s: Signature = forger.sign(&tbs);
             ia[3] = bytes(&s.to_vec());
+        }
+        Alt::X5GenuineThenForger => {
+            let forger = SigningKey::random(rng);
+            let c = pki::root_cert(&forger, "CN=Forger,C=US", 66);
+            issuer_auth_mut(pt)[1] = Value::Map(vec![(Value::Integer(33.into()), arr(vec![bytes(&sc.pki.ds.to_der().unwrap()), bytes(&c.to_der().unwrap())]))]);
+            let ia = issuer_auth_mut(pt);
+            let prot = ia[0].as_bytes().cloned().unwrap_or_default();
+            let payload = ia[2].as_bytes().cloned().unwrap_or_default();
+            let tbs = to_bytes(&arr(vec![text("Signature1"), bytes(&prot), bytes(&[]), bytes(&payload)]));
+            let s: Signature = forger.sign(&tbs);
+            ia[3] = bytes(&s.to_vec());
+        }
+        Alt::ProtectedReencoded(k) => {
+            // {1: -7} written differently; the signature stays the one over a1 01 26
+            let forms: [&[u8]; 4] = [&[0xa1, 0x01, 0x38, 0x06], &[0xa1, 0x18, 0x01, 0x26], &[0xb8, 0x01, 0x01, 0x26], &[0xbf, 0x01, 0x26, 0xff]];
+            issuer_auth_mut(pt)[0] = bytes(forms[*k as usize % 4]);
+        }
+        Alt::DocumentTwice(altered_first) => {
+            let authentic = doc_mut(pt).clone();
+            edit_item(pt, 0, 0, |m| { for (k, v) in m.iter_mut() { if k.as_text() == Some("elementValue") { *v = Value::Text("altered copy".into()); } } });
+            let altered = doc_mut(pt).clone();
+            if let Some(Value::Array(docs)) = map_get_mut(pt, "documents") {
+                *docs = if *altered_first { vec![altered, authentic] } else { vec![authentic, altered] };
+            }
+        }
+        Alt::DevSigShape(k) => {
+            let sig = device_sig_mut(pt)[3].as_bytes().cloned().unwrap_or_default();
+            device_sig_mut(pt)[3] = bytes(&match k % 5 { 0 => sig[..63.min(sig.len())].to_vec(), 1 => [sig.clone(), vec![1]].concat(), 2 => sig[..32.min(sig.len())].to_vec(), 3 => vec![], _ => vec![0; 64] });
         }
         Alt::DevProtectedAlg => {
             device_sig_mut(pt)[0] = bytes(&to_bytes(&Value::Map(vec![(Value::Integer(1.into()), Value::Integer((-35).into()))])));
@@ -502,13 +538,14 @@ pub fn weird_device_keys() -> Vec<(&'static str, CoseKey)> {
 pub fn c03_alts(rng: &mut StdRng, thorough: bool) -> Vec<Alt> {
     let mut v = vec![Alt::None, Alt::SigTruncate, Alt::ProtectedAlg(-35), Alt::ProtectedAlg(-70000), Alt::ProtectedAlgText, Alt::ProtectedEmpty, Alt::ProtectedKid,
         Alt::X5Remove, Alt::X5Unrelated, Alt::X5SelfSigned, Alt::X5Garbage, Alt::X5Array, Alt::X5RootAsLeaf, Alt::X5EmptyArray, Alt::X5WrongType,
-        Alt::X5Forged(false), Alt::X5Forged(true)];
+        Alt::X5Forged(false), Alt::X5Forged(true), Alt::X5GenuineThenForger,
+        Alt::ProtectedReencoded(0), Alt::ProtectedReencoded(1), Alt::ProtectedReencoded(2), Alt::ProtectedReencoded(3)];
     let n = if thorough { 400 } else { 12 };
     for _ in 0..n { v.push(Alt::PayloadFlip(rng.gen_range(0..100_000), rng.gen())); v.push(Alt::SigFlip(rng.gen_range(0..64), rng.gen())); }
     v
 }
 pub fn c04_alts(rng: &mut StdRng, thorough: bool) -> Vec<Alt> {
-    let mut v = vec![Alt::None, Alt::ItemMove, Alt::ItemInject, Alt::ItemDuplicateOtherNs, Alt::NamespaceRename];
+    let mut v = vec![Alt::None, Alt::ItemMove, Alt::ItemInject, Alt::ItemDuplicateOtherNs, Alt::NamespaceRename, Alt::DocumentTwice(true), Alt::DocumentTwice(false)];
     let n = if thorough { 40 } else { 4 };
     for _ in 0..n {
         let (a, b) = (rng.gen_range(0..2), rng.gen_range(0..6));
@@ -519,7 +556,8 @@ pub fn c04_alts(rng: &mut StdRng, thorough: bool) -> Vec<Alt> {
 }
 pub fn c05_alts(rng: &mut StdRng, thorough: bool) -> Vec<Alt> {
     let mut v = vec![Alt::None, Alt::DevSigOtherKey, Alt::DevNsChange, Alt::DevMac, Alt::DevDocTypeOther, Alt::DevProtectedAlg,
-        Alt::DevAttached(0), Alt::DevAttached(1), Alt::DevAttached(2)];
+        Alt::DevAttached(0), Alt::DevAttached(1), Alt::DevAttached(2),
+        Alt::DevSigShape(0), Alt::DevSigShape(1), Alt::DevSigShape(2), Alt::DevSigShape(3), Alt::DevSigShape(4)];
     let n = if thorough { 200 } else { 10 };
     for _ in 0..n { v.push(Alt::DevSigFlip(rng.gen_range(0..64), rng.gen())); }
     v
